@@ -324,7 +324,7 @@ class SimPool:
                 chunks.append(list(range(i, min(n, i + chunksize))))
         batch = {'pool': self.id, 'id': len(w.batches), 'kind': kind, 'func': func, 'n': n,
                  'chunksize': chunksize, 'assign': [None] * n, 'order': [], 'tasks': [None] * n,
-                 'start': self.start, 'nproc': nw, 'respawns': []}
+                 'start': self.start, 'nproc': nw, 'respawns': [], 'seq': w.seq}
         w.batches.append(batch)
         w.log('pool.batch', pool=self.id, batch=batch['id'], kind=kind, n=n, chunksize=chunksize,
               func=getattr(func, '__name__', None) or W.canon(func))
@@ -559,6 +559,16 @@ def remember_pristine():
     for m, k, v in _data_globals():
         try:
             _PRISTINE_GLOBALS.append((m, k, copy.deepcopy(v)))
+        except Exception:
+            pass
+
+
+def reset_globals_to_pristine():
+    """Start of every run: module data globals of emd are put back to their import-time values, so that
+    nothing an (edited) tree keeps at module level leaks from one simulated run into the next."""
+    for m, k, v in _PRISTINE_GLOBALS:
+        try:
+            setattr(m, k, copy.deepcopy(v))
         except Exception:
             pass
 
